@@ -6,6 +6,8 @@ Models: ErgoVerif.Model.Cron (node/cron_parse.go: parser, mask compiler, IsRunAt
 The models follow the code after the `fix:` commits for D8, D9, D17 and the two timer-function repairs.
 -/
 import ErgoVerif.Lemmas.CronReach
+import ErgoVerif.Lemmas.CronPrint
+import ErgoVerif.Lemmas.CronFits
 namespace ErgoVerif.Props.C20
 open ErgoVerif.Cron ErgoVerif.CronSched ErgoVerif.Generated.Cron
 
@@ -25,7 +27,25 @@ example : (⟨2026, 3, 31, 22, 45, 2⟩ : Civil).wf := by decide
 example : specIsRunAt (compileSpec ⟨.list [.starStep 15], .star, .list [.last], .star, .list [.lastW 7]⟩) ⟨2026, 3, 31, 22, 45, 2⟩ = true := by decide
 example : specIsRunAt (compileSpec ⟨.list [.starStep 15], .star, .list [.last], .star, .list [.lastW 7]⟩) ⟨2026, 3, 30, 22, 45, 1⟩ = false := by decide
 
+/-- the compiled masks of a valid spec all carry a type cronMask.IsRunAt knows (its panicking `default:` is
+    unreachable) and fit in 64 bits (the model's `Nat` bit operations are the code's uint64 operations) -/
+theorem C20_masks_wellformed (s : Spec) (hs : s.valid = true) (m : Nat)
+    (hm : m ∈ (compileSpec s).minHourMonth ∨ m ∈ (compileSpec s).day ∨ m ∈ (compileSpec s).weekDay) :
+    maskKnown m = true ∧ m < 2 ^ 64 :=
+  compileSpec_wellformed s hs m hm
+
 /-! ## The parser -/
+
+/-- parse ∘ print = id: every AST of the grammar, printed canonically, is accepted and yields the same AST -/
+theorem C20_parse_print (s : Spec) (hs : s.valid = true) : parseSpec s.print = some s :=
+  parseSpec_print s hs
+
+/-- the ASTs the parser can produce are exactly the ASTs of the grammar -/
+theorem C20_parse_grammar (s : Spec) : (∃ cs, parseSpec cs = some s) ↔ s.valid = true :=
+  ⟨fun ⟨_, h⟩ => parseSpec_valid h, fun h => ⟨s.print, parseSpec_print s h⟩⟩
+
+example : (⟨.list [.starStep 15, .num 59], .list [.rangeStep 0 23 2], .list [.num 1, .last], .star,
+           .list [.nth 1 2, .lastW 7, .range 2 3]⟩ : Spec).print = "*/15,59 0-23/2 1,L * 1#2,7L,2-3".toList := by decide
 
 /-- cronParseSpec accepts only texts that denote an AST of the grammar: values inside the field bounds, ascending
     ranges, steps 1..max, `L` only in the day field, `wL`/`w#n` only in the weekday field, no empty list, five fields -/
